@@ -109,8 +109,9 @@ PROP = Prop(
     level='other',
     replay=script_replay('replay/edit.py', default_fn='C20'),
     bounded=[Bounded('C20.bounded.cli', 'replay/edit.py', args=['--fn', 'C20'],
-                     bound='real edit_rules.py CLI on a hand-written grammar.txt (15 structures: M, X1, Y1, K4, two- and four-digit labels, repeated types) and on a trained ruleset; '
-                           '17 option combinations quick (length bounds incl. min only / max only / equal / beyond every structure, terminal sets, regexes, all three, --copy), '
+                     bound='real edit_rules.py CLI on a hand-written grammar.txt (15 structures: M, X1, Y1, K4, two- and four-digit labels, repeated types; context values of 2, 3 and 4 characters whose alphabetical order '
+                           'is not their order by length) and on a trained ruleset; '
+                           '22 option combinations quick (length bounds incl. min only / max only / equal / beyond every structure, terminal sets, regexes, all three, --copy), '
                            '+80 length-bound pairs thorough',
                      clause='grammar.txt afterwards == original lines minus the structures failing a requested filter, survivors textually unchanged and in order; every other '
                             'file byte-identical; --copy leaves the source untouched; every non-Markov guess of the edited trained ruleset is within the length bounds')],
